@@ -133,6 +133,13 @@ def wrapper_entries():
     vec('TetCCR', E.ElementTetCCR, 'tet')
     vec('Hex1', E.ElementHex1, 'hex')
     vec('HexS2', E.ElementHexS2, 'hex')
+    # explicit number of components different from the dimension of the reference cell
+    out.append(Entry('ElementVector(LineP2,2)', lambda: E.ElementVector(E.ElementLineP2(), 2), 'H1', False, False, 0, 'line', 'vector'))
+    out.append(Entry('ElementVector(TriP2,3)', lambda: E.ElementVector(E.ElementTriP2(), 3), 'H1', False, False, 0, 'tri', 'vector'))
+    out.append(Entry('ElementVector(TriCR,1)', lambda: E.ElementVector(E.ElementTriCR(), 1), 'CR', False, False, 0, 'tri', 'vector'))
+    out.append(Entry('ElementVector(Quad2,3)', lambda: E.ElementVector(E.ElementQuad2(), 3), 'H1', False, False, 0, 'quad', 'vector'))
+    out.append(Entry('ElementVector(TetCCR,2)', lambda: E.ElementVector(E.ElementTetCCR(), 2), 'H1', False, False, 0, 'tet', 'vector'))
+    out.append(Entry('ElementVector(Hex2,2)', lambda: E.ElementVector(E.ElementHex2(), 2), 'H1', False, False, 0, 'hex', 'vector'))
     dg('LineP2', E.ElementLineP2, 'line')
     dg('TriP2', E.ElementTriP2, 'tri')
     dg('TriRT1', E.ElementTriRT1, 'tri')
@@ -152,6 +159,9 @@ def wrapper_entries():
     comp('TetP2*TetP1', 'tet', E.ElementTetP2, E.ElementTetP1)
     comp('TetN1*TetRT1', 'tet', E.ElementTetN1, E.ElementTetRT1)
     comp('TetCCR*TetP0', 'tet', E.ElementTetCCR, E.ElementTetP0)
+    comp('TetP2*TetCR', 'tet', E.ElementTetP2, E.ElementTetCR)
+    comp('TetCR*TetCCR*TetP2', 'tet', E.ElementTetCR, E.ElementTetCCR, E.ElementTetP2)
+    comp('HexRT1*HexS2*Hex2', 'hex', E.ElementHexRT1, E.ElementHexS2, E.ElementHex2)
     out.append(Entry('Composite(Vector(TetP2)*TetP1)', lambda: E.ElementComposite(E.ElementVector(E.ElementTetP2()),
                                                                                   E.ElementTetP1()),
                      'mixed', False, False, 0, 'tet', 'composite'))
